@@ -229,8 +229,38 @@ for name in names:
             prob.append(f'paths returned although no disjoint pair crosses the STRICT hops {need_strict}')
         if prob:
             wit.append({'key': key, 'problems': prob})
+    # both requests of the pair carry a one-hop route list (every STRICT / LOOSE combination, crossable or not)
+    hop1 = [f'roadm {x}' for x in inner]
+    for (u0, f0), (u1, f1) in itertools.product([(u, f) for u in hop1 for f in (True, False)], repeat=2):
+        key = f'{name}:pair-with-two-route-lists:{(u0, "STRICT" if f0 else "LOOSE")}/{(u1, "STRICT" if f1 else "LOOSE")}'
+        reqs = [service(0, s, d, include=[u0], strict=[f0]), service(1, s, d, include=[u1], strict=[f1])]
+        try:
+            st, by_id, rqs = run(reqs, [sync(0, [0, 1])], key)
+        except ServiceError:
+            continue
+
+        def through2(p, need):
+            it_ = iter(expand(p))
+            return all(any(x == n for x in it_) for n in need)
+        sols = [(p, q) for p in nx.all_simple_paths(rg, s, d) for q in nx.all_simple_paths(rg, s, d)
+                if not (undirected(zip(p, p[1:])) & undirected(zip(q, q[1:])))]
+        need0, need1 = ([u0] if f0 else []), ([u1] if f1 else [])
+        strict_ok = any(through2(p, need0) and through2(q, need1) for p, q in sols)
+        nontriv += 1
+        prob = []
+        if st == 'ok':
+            r0 = [e.uid.split(' ', 1)[1] for e in by_id['0'] if isinstance(e, Roadm)]
+            r1 = [e.uid.split(' ', 1)[1] for e in by_id['1'] if isinstance(e, Roadm)]
+            if not strict_ok or not through2(r0, need0) or not through2(r1, need1):
+                prob.append(f'routes {r0} / {r1} returned although the STRICT hops {need0} / {need1} ' +
+                            ('cannot be crossed by any disjoint pair' if not strict_ok else 'are not crossed'))
+        elif not need0 and not need1 and sols:
+            prob.append('DisjunctionError although only LOOSE hops were asked for and disjoint routes exist')
+        if prob:
+            wit.append({'key': key, 'problems': prob})
 finish('synchronised requests are link-disjoint in both directions; pairs complete', 'bounded',
        'gnpy.topology.request.compute_path_dsjctn (+ requests_aggregation, deduplicate_disjunctions)',
        f'topologies {names}: request pairs over 6x8 ordered site pairs with brute-force completeness, triples, overlapping '
        'groups, include constraints; on spur5 and mesh4 a pair whose first request carries a route list of 1 - 3 hops in every STRICT / LOOSE mix '
-       '(uncrossable sites, unknown names, end points named in the list) against a brute-force search', cases, wit, nontrivial=nontriv, t0=t0)
+       '(uncrossable sites, unknown names, end points named in the list, whole routes of 11 route objects) and pairs with a one-hop list on both '
+       'requests, against an element-level brute-force search', cases, wit, nontrivial=nontriv, t0=t0)
